@@ -1,9 +1,16 @@
 ------------------------------ MODULE Aliasing ------------------------------
-(* Actions whose specified result does not depend on whether the OUTPUT buffer is one of the INPUT buffers of the same call  *)
-(* (the C prototypes are not restrict-qualified, the headers do not forbid the overlap, and the idioms are natural: a        *)
-(* running total of blinding factors, hashing host randomness in place, a shared secret overwriting the secret key).  The    *)
-(* engine replays every generated record of these actions a further time with "alias": 1 in the input and the SAME          *)
-(* specified output; the harness operation then passes the input buffer as the output argument (harness/ops_*.h).           *)
-(* ec_pubkey_combine is deliberately absent: it clears its output before reading its inputs on the unchanged tree.           *)
-AliasEvents == { "PedBlindSum", "HostCommit", "Ecdh", "EllswiftXdh" }
+(* Actions whose specified result does not depend on whether the OUTPUT buffer is (or contains) one of the INPUT buffers of the  *)
+(* same call: the C prototypes are not restrict-qualified, the headers do not forbid the overlap, the unchanged library reads     *)
+(* every input before its first write to the output, and the idioms are natural (a running total of blinding factors, hashing    *)
+(* host randomness in place, a shared secret overwriting the secret key, staging message / key / auxiliary randomness in the     *)
+(* buffer that will receive the signature).  Each entry is <<action, number of alias modes>>: the engine replays every generated  *)
+(* record of the action once per mode m with "alias": m in the input and the SAME specified output; what mode m aliases is        *)
+(* defined next to the harness operation (harness/ops_*.h).                                                                      *)
+(* ec_pubkey_combine is deliberately absent: it clears its output before reading its inputs on the unchanged tree.               *)
+AliasEvents == { <<"PedBlindSum", 1>>,      \* 1: blind_out = buffer of the first input blind
+                 <<"HostCommit", 1>>,       \* 1: commitment written over the randomness buffer
+                 <<"Ecdh", 1>>,             \* 1: output = secret-key buffer (32-byte outputs)
+                 <<"EllswiftXdh", 1>>,      \* 1: output = secret-key buffer
+                 <<"EcdsaSign", 3>>,        \* 1: message, 2: secret key, 3: extra nonce data stored inside the signature object
+                 <<"SchnorrSign", 2>> }     \* 1: auxiliary randomness at sig64, 2: message (<= 32 bytes) at sig64 + 32
 =============================================================================
